@@ -1711,7 +1711,30 @@ func refIdentityRule(p *core.Prog, r *core.Report, rule string) {
 			for _, b := range g.Blocks {
 				for _, in := range b.Instrs {
 					bo, ok := in.(*ssa.BinOp)
-					if !ok || (bo.Op != token.EQL && bo.Op != token.NEQ) || !isStringType(bo.X.Type()) {
+					if !ok || (bo.Op != token.EQL && bo.Op != token.NEQ) {
+						continue
+					}
+					if _, isStruct := bo.X.Type().Underlying().(*types.Struct); isStruct {
+						// the references are compared as keys (`a.repositoryKey() == b.repositoryKey()`):
+						// what goes into the fields of such a key, anywhere in the helpers, obeys the same rule
+						n++
+						bad := ""
+						for _, fs := range fieldStores(sortedFuncs(core.Helpers(fn, 2)), func(nm *types.Named, f string) bool { return nm == core.NamedOf(bo.X.Type()) }) {
+							for _, o := range core.Origins(fs.Store.Val, core.SliceOpts{FieldsThrough: true}) {
+								if o.Kind != core.OCall || o.Callee() == nil || o.Callee().Pkg() == nil {
+									continue
+								}
+								if pk := o.Callee().Pkg().Path(); pk == "path" || pk == "path/filepath" {
+									continue
+								}
+								bad = core.ShortFunc(o.Callee())
+							}
+						}
+						r.Check(bad == "", rule, p.FuncName(g), lab.next("compared operands"), p.Pos(bo.Pos()),
+							"the keys the references are compared by are built through "+bad+", not from their own fields: two references that differ can come out equal, and the copy between them is taken for a retag in place")
+						continue
+					}
+					if !isStringType(bo.X.Type()) {
 						continue
 					}
 					if _, isC := bo.X.(*ssa.Const); isC {
